@@ -93,6 +93,46 @@ theorem padded_shape (shape tile : YX) :
   exact ⟨alignUp_ge _ _ (hp _), alignUp_lt _ _ (hp _), alignUp_dvd _ _ (hp _),
     alignUp_ge _ _ (hp _), alignUp_lt _ _ (hp _), alignUp_dvd _ _ (hp _)⟩
 
+/-- `align_down_pow2(x)` for `x ≥ 1`: the largest power of two not above `x` -/
+theorem alignDownPow2_spec (x : Nat) (hx : 1 ≤ x) :
+    (∃ k, alignDownPow2 x = 2 ^ k) ∧ alignDownPow2 x ≤ x ∧ x < 2 * alignDownPow2 x := by
+  unfold alignDownPow2
+  rw [if_neg (by omega)]
+  exact pow2Below_spec x 1 x (Nat.le_refl _) hx (by omega) ⟨0, rfl⟩
+
+
+/-- `compute_cog_spec(…, max_pad=mp)`: the padding unit is `2^n` unless `mp` is smaller, then it is
+the largest power of two `≤ mp` (no padding at all for `mp = 0`); each side is padded up by less
+than that unit to a multiple of it, so never by more than `mp` when `mp` limits it. -/
+theorem padded_shape_maxpad (shape tile : YX) (mp : Nat) :
+    let r := computeCogSpec shape tile (some mp)
+    let n := r.2.2
+    let pad := if mp < 2 ^ n then (if mp = 0 then 0 else alignDownPow2 mp) else 2 ^ n
+    n = (computeCogSpec shape tile).2.2 ∧
+    (pad = 0 → r.1 = shape) ∧
+    (0 < pad → shape.y ≤ r.1.y ∧ r.1.y < shape.y + pad ∧ pad ∣ r.1.y ∧
+               shape.x ≤ r.1.x ∧ r.1.x < shape.x + pad ∧ pad ∣ r.1.x) ∧
+    (mp < 2 ^ n → pad ≤ mp) ∧ (pad = 0 ∨ ∃ k, pad = 2 ^ k) := by
+  intro r n pad
+  have hr : r.1 = if pad > 0 then ⟨alignUp shape.y pad, alignUp shape.x pad⟩ else shape := rfl
+  refine ⟨rfl, ?_, ?_, ?_, ?_⟩
+  · intro h0; rw [hr, if_neg (by omega)]
+  · intro hp
+    rw [hr, if_pos hp]
+    exact ⟨alignUp_ge _ _ hp, alignUp_lt _ _ hp, alignUp_dvd _ _ hp,
+      alignUp_ge _ _ hp, alignUp_lt _ _ hp, alignUp_dvd _ _ hp⟩
+  · intro hlt
+    simp only [pad, if_pos hlt]
+    split
+    · omega
+    · rename_i h0; exact (alignDownPow2_spec mp (by omega)).2.1
+  · simp only [pad]
+    split
+    · split
+      · left; rfl
+      · rename_i h0; right; exact (alignDownPow2_spec mp (by omega)).1
+    · right; exact ⟨n, rfl⟩
+
 /-- F19 witness: the padding can cross a tile boundary — 272 rows with 16-pixel tiles are padded
 to 288 rows = 18 tile rows, the unpadded source has only 17 chunk rows (the writer now pads
 the source, `_pad_to_cog_shape`). -/
@@ -157,6 +197,14 @@ theorem make_empty_cog_total (shape : List Nat) (gbox : Option (YX × Aff)) (bs 
   refine ⟨⟨ax, ns, if ax = .SYX then ns else 1, _, lv⟩, ?_, rfl, rfl, rfl, hlen⟩
   simp only [makeEmptyCog, makeEmptyCogWith, hax, him, hlast]
   rw [hlv]
+
+/-- every IFD of a header has the same number of planes (hypothesis of
+`write_order_stream_exact`) -/
+theorem cog_metas_planes (c : Cog) : ∀ m ∈ c.metas, m.planes = c.planes := by
+  intro m hm
+  simp only [Cog.metas, List.mem_map] at hm
+  obtain ⟨l, _, rfl⟩ := hm
+  rfl
 
 /-- F18 witness: the loop as it was before the repair (shrink + `zoom_to` after *every* level)
 divides by zero for an 8×200 image with 32-pixel tiles and a GeoBox … -/
@@ -465,6 +513,89 @@ theorem write_order_complete (m0 : Meta) (rest : List Meta) (e : Nat × Nat × N
     refine ⟨bag m e.1 e.2.1, ⟨(m, e.1), List.mem_zipIdx_iff_getElem?.mpr hm, e.2.1, hs, rfl⟩, ?_⟩
     simp only [bag, List.mem_flatMap, List.mem_map, List.mem_range]
     exact ⟨e.2.2.1, hy, e.2.2.2, hx, rfl⟩
+
+/-- no tile is streamed twice -/
+theorem write_order_nodup (ms : List Meta) : (writeOrder ms).Nodup := writeOrder_nodup ms
+
+/-- the observation of write-order entry `e` with `sz` bytes -/
+def obsOf (e : Nat × Nat × Nat × Nat) (sz : Nat) : Obs := ⟨e.1, e.2.1, e.2.2.1, e.2.2.2, sz⟩
+
+/-- key of a write-order entry: its IFD and its flat index there -/
+theorem obsKey_obsOf (ms : List Meta) (e : Nat × Nat × Nat × Nat) (sz : Nat) (m : Meta)
+    (hm : ms[e.1]? = some m) (hv : e.2.1 < m.planes ∧ e.2.2.1 < m.chunked.y ∧ e.2.2.2 < m.chunked.x) :
+    obsKey ms (obsOf e sz) = .ok (e.1, m.flatRaw e.2.1 e.2.2.1 e.2.2.2) := by
+  simp only [obsKey, obsOf, hm, flat_tile_idx_ok, if_pos hv]
+
+/-- validity of every write-order entry, with the planes of its own level -/
+theorem writeOrder_valid (m0 : Meta) (rest : List Meta) (hpl : ∀ m ∈ rest, m.planes = m0.planes)
+    (e : Nat × Nat × Nat × Nat) (he : e ∈ writeOrder (m0 :: rest)) :
+    ∃ m, (m0 :: rest)[e.1]? = some m ∧ e.2.1 < m.planes ∧ e.2.2.1 < m.chunked.y ∧ e.2.2.2 < m.chunked.x := by
+  obtain ⟨m, hm, hs, hy, hx⟩ := (write_order_complete m0 rest e).mp he
+  refine ⟨m, hm, ?_, hy, hx⟩
+  have hmem : m ∈ m0 :: rest := List.mem_of_getElem? hm
+  rcases List.mem_cons.mp hmem with rfl | h
+  · exact hs
+  · rw [hpl m h]; exact hs
+
+/-- The stream `save_cog_with_dask` really produces — the tiles in `writeOrder`, with arbitrary
+observed sizes — satisfies the hypotheses of `tile_info_exact` by itself: every id is inside its
+IFD's grid and no tile occurs twice.  Hence header patching succeeds and every non-empty tile's
+entry is `(start + Σ earlier sizes, its size)`. -/
+theorem write_order_stream_exact (m0 : Meta) (rest : List Meta)
+    (hpl : ∀ m ∈ rest, m.planes = m0.planes) (szs : List Nat) (start : Nat) :
+    let ms := m0 :: rest
+    let tiles := List.zipWith obsOf (writeOrder ms) szs
+    ∃ info, extractTileInfo ms tiles start = .ok info ∧
+      ∀ i (hi : i < tiles.length), tiles[i].sz ≠ 0 →
+        ∃ l f, obsKey ms tiles[i] = .ok (l, f) ∧
+          look info l f = some (streamOff start tiles i, tiles[i].sz) := by
+  intro ms tiles
+  have hlen : tiles.length ≤ (writeOrder ms).length := by
+    simp only [tiles, List.length_zipWith]; omega
+  have hget : ∀ i (hi : i < tiles.length), ∃ sz,
+      tiles[i] = obsOf ((writeOrder ms)[i]'(Nat.lt_of_lt_of_le hi hlen)) sz := by
+    intro i hi
+    simp only [tiles, List.getElem_zipWith]
+    exact ⟨_, rfl⟩
+  have hkey : ∀ i (hi : i < tiles.length), ∃ m,
+      ms[((writeOrder ms)[i]'(Nat.lt_of_lt_of_le hi hlen)).1]? = some m ∧
+      obsKey ms tiles[i] = .ok (((writeOrder ms)[i]'(Nat.lt_of_lt_of_le hi hlen)).1,
+        m.flatRaw ((writeOrder ms)[i]'(Nat.lt_of_lt_of_le hi hlen)).2.1
+          ((writeOrder ms)[i]'(Nat.lt_of_lt_of_le hi hlen)).2.2.1
+          ((writeOrder ms)[i]'(Nat.lt_of_lt_of_le hi hlen)).2.2.2) ∧
+      (((writeOrder ms)[i]'(Nat.lt_of_lt_of_le hi hlen)).2.1 < m.planes ∧
+        ((writeOrder ms)[i]'(Nat.lt_of_lt_of_le hi hlen)).2.2.1 < m.chunked.y ∧
+        ((writeOrder ms)[i]'(Nat.lt_of_lt_of_le hi hlen)).2.2.2 < m.chunked.x) := by
+    intro i hi
+    obtain ⟨sz, hsz⟩ := hget i hi
+    obtain ⟨m, hm, hv⟩ := writeOrder_valid m0 rest hpl _ (List.getElem_mem (Nat.lt_of_lt_of_le hi hlen))
+    exact ⟨m, hm, by rw [hsz]; exact obsKey_obsOf ms _ sz m hm hv, hv⟩
+  have hall : ∀ t ∈ tiles, ∃ k, obsKey ms t = .ok k := by
+    intro t ht
+    obtain ⟨i, hi, rfl⟩ := List.getElem_of_mem ht
+    obtain ⟨m, _, hk, _⟩ := hkey i hi
+    exact ⟨_, hk⟩
+  obtain ⟨⟨info, off⟩, hrun⟩ := extractLoop_total ms tiles (initInfo ms, start) hall
+  have hinfo : extractTileInfo ms tiles start = .ok info := by
+    simp [extractTileInfo, hrun, Except.map]
+  refine ⟨info, hinfo, ?_⟩
+  apply tile_info_exact ms tiles start info hinfo
+  intro i j hi hj hij _ _ heq
+  obtain ⟨mi, hmi, hki, hvi⟩ := hkey i hi
+  obtain ⟨mj, hmj, hkj, hvj⟩ := hkey j hj
+  rw [hki, hkj] at heq
+  have h1 := (Prod.mk.inj (Except.ok.inj heq)).1
+  have h2 := (Prod.mk.inj (Except.ok.inj heq)).2
+  rw [h1] at hmi
+  have hmm : mi = mj := Option.some.inj (hmi.symm.trans hmj)
+  subst hmm
+  have h3 := flat_idx_inj mi _ _ _ _ _ _ hvi hvj h2
+  have hee : (writeOrder ms)[i]'(Nat.lt_of_lt_of_le hi hlen) = (writeOrder ms)[j]'(Nat.lt_of_lt_of_le hj hlen) := by
+    apply Prod.ext h1
+    exact h3
+  have := (List.Nodup.getElem_inj_iff (writeOrder_nodup ms)).mp hee
+  omega
+
 
 example : writeOrder [⟨1, ⟨8, 40⟩, ⟨16, 16⟩⟩, ⟨1, ⟨4, 20⟩, ⟨16, 16⟩⟩] =
     [(1, 0, 0, 0), (1, 0, 0, 1), (0, 0, 0, 0), (0, 0, 0, 1), (0, 0, 0, 2)] := by decide
